@@ -97,6 +97,17 @@ def gen_cases(rng, ctx):
         host = rng.choice(["origin.test", "origin.test:8080", "10.0.0.1"]) if not front else "@A"
         path = rng.choice(["/", "/p", "/a/b?x=1&y=%20"])
         uri = "http://%s%s" % (host, path)
+        if i < 2:
+            # always there: the query without a path, and the server-wide OPTIONS spelled in absolute-form (a recorded finding)
+            version, method, host = 1, ("GET", "OPTIONS")[i], "origin.test"
+        if version == 1 and not front and (i < 2 or rng.chance(1, 6)):
+            # absolute-form targets with an empty path (HTTP/1.1 only: HTTP/2 and HTTP/3 forbid an empty :path): on the wire the origin-form
+            # path is "/" (RFC 9112 3.2.1), in front of a query too; OPTIONS without path and query is the server-wide "*" (3.2.4)
+            q = rng.choice(["", "?x=1", "?a=b&c=%2F"])
+            if i < 2:
+                q = ("?x=1", "")[i]
+            uri = "http://%s%s" % (host, q)
+            path = "*" if (method == "OPTIONS" and not q) else "/" + q
         req_hs = [("accept", "*/*")]
         if rng.chance(1, 2):
             req_hs.append(("proxy-authorization", "Basic dTpw"))
@@ -389,6 +400,10 @@ def parse_flat(tok):
 
 
 def known_finding(case, kind, msg, known):
+    if "request line forwarded as [b'OPTIONS / HTTP/1.1'], expected b'OPTIONS * HTTP/1.1'" in msg:
+        for k in known.get("findings", []):
+            if k["property"] == "C17" and k["id"] == "options-absolute-form-empty-path":
+                return "options-absolute-form-empty-path"
     if "is forwarded without any body framing" in msg:
         for k in known.get("findings", []):
             if k["property"] == "C17" and k["id"] == "h2-request-body-unframed":
